@@ -210,8 +210,24 @@ func checkAttachmentCRC(p *Program, r *Result, isSink func(ssa.CallInstruction) 
 	}
 	fname := funcName(fn)
 	// the CRC accumulator: receiver of the Checksum() call whose result is written last
+	// (the operation may be split into unexported helpers: calls are taken in source order with helpers replaced by their
+	// own calls)
+	deep := deepCalls(p, fn, 3)
+	var allCalls []ssa.CallInstruction
+	for _, dc := range deep {
+		allCalls = append(allCalls, dc.in)
+	}
+	deepFilter := func(pred func(ssa.CallInstruction) bool) []ssa.CallInstruction {
+		var out []ssa.CallInstruction
+		for _, ci := range allCalls {
+			if pred(ci) {
+				out = append(out, ci)
+			}
+		}
+		return out
+	}
 	var sumCall *ssa.Call
-	for _, ci := range callsIn(fn, func(ci ssa.CallInstruction) bool { return calleeRepoName(ci) == "mcap.crcWriter.Checksum" }) {
+	for _, ci := range deepFilter(func(ci ssa.CallInstruction) bool { return calleeRepoName(ci) == "mcap.crcWriter.Checksum" }) {
 		sumCall, _ = ci.(*ssa.Call)
 	}
 	if sumCall == nil {
@@ -226,8 +242,8 @@ func checkAttachmentCRC(p *Program, r *Result, isSink func(ssa.CallInstruction) 
 	}
 	if !fresh {
 		// a reused accumulator is acceptable only if it is reset in this function before use
-		for _, ci := range callsIn(fn, func(ci ssa.CallInstruction) bool { return calleeRepoName(ci) == "mcap.crcWriter.Reset" }) {
-			if len(ci.Common().Args) > 0 && sameValue(ci.Common().Args[0], acc) && instrDominates(ci, sumCall) {
+		for _, ci := range deepFilter(func(ci ssa.CallInstruction) bool { return calleeRepoName(ci) == "mcap.crcWriter.Reset" }) {
+			if len(ci.Common().Args) > 0 && sameValue(ci.Common().Args[0], acc) && ci.Parent() == sumCall.Parent() && instrDominates(ci, sumCall) {
 				fresh = true
 			}
 		}
@@ -242,7 +258,7 @@ func checkAttachmentCRC(p *Program, r *Result, isSink func(ssa.CallInstruction) 
 	var seq []string
 	var firstDirect, lastDirect, copyIdx, sumIdx = -1, -1, -1, -1
 	i := 0
-	for _, ci := range callsIn(fn, func(ssa.CallInstruction) bool { return true }) {
+	for _, ci := range allCalls {
 		if ci == ssa.CallInstruction(sumCall) {
 			sumIdx = i
 			seq = append(seq, "Checksum")
@@ -292,7 +308,7 @@ func checkAttachmentCRC(p *Program, r *Result, isSink func(ssa.CallInstruction) 
 	}
 	_, _, _, _ = firstDirect, lastDirect, copyIdx, sumIdx
 	// the direct prefix write is exactly the first 9 bytes (opcode + length)
-	for _, ci := range callsIn(fn, func(ci ssa.CallInstruction) bool { ok, _ := isSink(ci); return ok }) {
+	for _, ci := range deepFilter(func(ci ssa.CallInstruction) bool { ok, _ := isSink(ci); return ok }) {
 		args := ci.Common().Args
 		if len(args) == 0 {
 			continue
@@ -309,7 +325,7 @@ func checkAttachmentCRC(p *Program, r *Result, isSink func(ssa.CallInstruction) 
 		}
 	}
 	// and the through-crc write starts at byte 9
-	for _, ci := range callsIn(fn, func(ci ssa.CallInstruction) bool { return calleeRepoName(ci) == "mcap.crcWriter.Write" }) {
+	for _, ci := range deepFilter(func(ci ssa.CallInstruction) bool { return calleeRepoName(ci) == "mcap.crcWriter.Write" }) {
 		args := ci.Common().Args
 		if sl, ok := args[len(args)-1].(*ssa.Slice); ok {
 			if c, ok := sl.Low.(*ssa.Const); ok && c.Value != nil && c.Int64() == 9 {
